@@ -782,6 +782,13 @@ def scope_var_limit(prog, chk):
             # the block that performs the comparison against the limit
             cmpb = x
             skips = []
+            # where the loop itself stores each attribute it lets through (`new_vars.push((name, value))`, set_var) and
+            # that store comes after the comparison, an attribute that skips the comparison is not stored either (the
+            # `_` / `__` comments of <var>): only loops whose element is pushed as a scope wholesale are in question
+            stores = [sb for (sb, st_, sc_) in body.call_sites(lambda c: c.path.endswith("::push") or c.path.endswith("TransformerContext::set_var")) if sb in lp[1] and sb != cmpb and body.dominates(cmpb, sb)]
+            if stores:
+                chk.ok("A7.scope-var-limit", f"{body.short}:every-attribute", body.where(lp[0]), "attributes are stored one by one after the var_limit test: one that skips the test is not stored")
+                continue
             for sblk in sorted(lp[1]):
                 t = body.term(sblk)
                 if t["k"] != "switch" or sblk == cmpb or body.dominates(cmpb, sblk):
